@@ -1059,6 +1059,88 @@ def rule_r14(prog, res):
                         'request')
 
 
+def _doc_tainted(f):
+    """Locals of f bound from the request document (ctx.in_document etc.),
+    transitively through plain copies, unpacking and method calls on them."""
+    tainted = set()
+    for _ in range(4):
+        for a in walk_no_defs(f.node):
+            if not isinstance(a, ast.Assign):
+                continue
+            src = unparse(a.value)
+            names = {x.id for x in ast.walk(a.value)
+                     if isinstance(x, ast.Name)}
+            if 'in_document' in src or 'in_body_doc' in src or \
+                    'in_header_doc' in src or names & tainted:
+                for t in a.targets:
+                    for x in ast.walk(t):
+                        if isinstance(x, ast.Name):
+                            tainted.add(x.id)
+    return tainted
+
+
+def rule_r15(prog, res):
+    res.rule('R15', 'envelope decomposition never asserts on, or raises a '
+             'non-Fault exception under a condition on, a value the peer '
+             'sent (message type, method name, parameters)')
+    from ..flow import guards_at, flatten_guards
+    n = 0
+    for c in prog.all_classes():
+        if not c.module.relpath.startswith('spyne/protocol/'):
+            continue
+        f = c.methods.get('decompose_incoming_envelope')
+        if f is None:
+            continue
+        tainted = _doc_tainted(f)
+        for st in walk_no_defs(f.node):
+            kind = None
+            if isinstance(st, ast.Assert):
+                kind = 'assert'
+            elif isinstance(st, ast.Raise) and st.exc is not None:
+                nm = dotted(st.exc.func) if isinstance(
+                    st.exc, ast.Call) else dotted(st.exc)
+                last = (nm or '').split('.')[-1]
+                cls_ = prog.find_class(last) if hasattr(
+                    prog, 'find_class') else None
+                is_fault = last.endswith('Error') and last in (
+                    'ValidationError', 'ResourceNotFoundError',
+                    'MessagePackDecodeError', 'RequestNotAllowed',
+                    'InvalidInputError', 'MissingFieldError',
+                    'RequestTooLongError') or last == 'Fault'
+                if not is_fault and last:
+                    for k2 in prog.all_classes():
+                        if k2.name == last and prog.is_subclass(k2, 'Fault'):
+                            is_fault = True
+                if not is_fault:
+                    kind = 'raise %s' % last
+            if kind is None:
+                continue
+            n += 1
+            g = flatten_guards(guards_at(st, stop=f.node))
+            names = {x.id for e, _ in g for x in ast.walk(e)
+                     if isinstance(x, ast.Name)}
+            if isinstance(st, ast.Assert):
+                names |= {x.id for x in ast.walk(st.test)
+                          if isinstance(x, ast.Name)} & tainted
+            dep = sorted(names & tainted)
+            where = '%s:%d' % (f.module.relpath, st.lineno)
+            res.ob('R15', where, '%s: %s %s' % (
+                f.qualname, kind, 'depends on request values %s' % dep
+                if dep else 'does not depend on the request'),
+                'VIOLATED' if dep else 'ok')
+            if dep:
+                res.finding('R15', '%s|%s|%s' % (f.qualname, kind.split()[0],
+                                                 ','.join(dep)), where,
+                            '%s in %s is reached (or decided) by %s, which '
+                            'the peer sent: the exception is not a Fault, '
+                            'generate_contexts does not catch it and it '
+                            'leaves the transport ([1, 0, "f", []] or '
+                            '[2, 0, "f"] for MessagePackRpc)' % (
+                                kind, f.qualname, dep))
+    res.floor('R15', 'asserts and non-Fault raises in envelope decomposition',
+              n, 0)
+
+
 def run(prog, res, tier):
     res.run_rule(rule_r8, prog, res)
     res.run_rule(rule_r7, prog, res)
@@ -1073,6 +1155,7 @@ def run(prog, res, tier):
     res.run_rule(rule_r12, prog, res)
     res.run_rule(rule_r13, prog, res)
     res.run_rule(rule_r14, prog, res)
+    res.run_rule(rule_r15, prog, res)
     res.run_rule(rule_r4, prog, res, tier)
     res.run_rule(rule_r5, prog, res)
     res.run_rule(rule_r6, prog, res, tier)
@@ -1090,6 +1173,18 @@ _H = 'spyne/protocol/dictdoc/hier.py'
 _MI = 'spyne/protocol/soap/mime.py'
 
 MUTANTS = [
+    Mutant('msgpackrpc-asserts-message-type', 'R15', 'fire', _M,
+           in_func('MessagePackRpc.decompose_incoming_envelope',
+                   "            if message != MessagePackRpc.REQUEST:\n"
+                   "                raise MessagePackDecodeError(\"Unexpected "
+                   "request message\")\n",
+                   "            assert message == MessagePackRpc.REQUEST\n"),
+           'assert'),
+    Mutant('msgpackrpc-notify-not-implemented', 'R15', 'fire', _M,
+           in_func('MessagePackRpc.decompose_incoming_envelope',
+                   "raise MessagePackDecodeError(\"Notifications are not "
+                   "supported\")", "raise NotImplementedError()"),
+           'raise'),
     Mutant('fault-request-let-through', 'R14', 'fire', _S,
            in_func('Soap11.decompose_incoming_envelope',
                    "            if message is self.REQUEST:\n"
